@@ -31,7 +31,7 @@ def shards(tier, seed):
             out.append({"id": "seq-%s-%d" % (t, i), "kind": "seq", "transport": t, "n": nseq})
         out.append({"id": "facade-" + t, "kind": "facade", "transport": t,
                     "statuses": "some" if tier == "quick" else "all"})
-        out.append({"id": "facade-sessions-" + t, "kind": "facade_sessions", "transport": t, "n": 60 if tier == "quick" else 2500})
+        out.append({"id": "facade-sessions-" + t, "kind": "facade_sessions", "transport": t, "n": 120 if tier == "quick" else 2500})
         out.append({"id": "any-opcode-" + t, "kind": "any_opcode", "transport": t})
         if t != "iscsi_noraw":
             out.append({"id": "sense-table-" + t, "kind": "sense_table", "transport": t, "keys": [0, 1, 2, 5, 6, 0xB] if tier == "quick" else list(range(16))})
@@ -523,8 +523,14 @@ def run_facade_sessions(shard, ctx, env, rng):
     for sess in range(shard["n"]):
         s = harness.make_facade(env.dev)
         hist = []
+        # a third of the sessions are polling loops: one method, the same arguments, again and again on one facade
+        poll = rng.choice(methods) if rng.random() < 0.33 else None
+        if poll is not None and rng.random() < 0.4:
+            poll = next((m for m in methods if m[0].lower().replace("_", "") == "testunitready"), poll)  # (what initiators poll with)
+        if poll is not None:
+            ctx.count("polling_sessions")
         for i in range(rng.randint(5, 30)):
-            label, c, a = rng.choice(ata) if rng.random() < 0.25 else rng.choice(methods)
+            label, c, a = poll if poll is not None else rng.choice(ata) if rng.random() < 0.25 else rng.choice(methods)
             setname = "sbc" if "sbc" in c.sets else c.sets[0]
             env.dev.opcodes = getattr(E, setname)
             r = rng.random()
@@ -532,6 +538,7 @@ def run_facade_sessions(shard, ctx, env, rng):
             sense = env.unique_sense(rng) if status == 2 else None
             if status == 2 and rng.random() < 0.15 and t != "sgio":
                 sense = None  # CHECK CONDITION for which the iSCSI binding has no sense data (a task without autosense)
+                env.isc.omit_absent_sense = rng.random() < 0.5  # ... and, in one binding, no raw_sense attribute on such a task either
                 ctx.count("check_conditions_without_sense_data")
             if rng.random() < 0.06:
                 import errno as _errno
@@ -558,6 +565,7 @@ def run_facade_sessions(shard, ctx, env, rng):
                 env.plan = []
                 continue
             if status == 2 and sense is None:
+                env.isc.omit_absent_sense = False
                 # whatever is raised, it does not carry the sense of an earlier command
                 from vmon.spec import sense as _ref
 
